@@ -1064,6 +1064,41 @@ func ruleDecoderPanics(c *Ctx) {
 						if !ok {
 							bad = fmt.Sprintf("%s calls %s on a path that does not pass %s first (%s)", FnKey(e.Caller.Fn), shortSym(FnKey(target)), shortSym(gate.validator), strings.Join(path, " -> "))
 						}
+						// a validator that is a *read* validates by failing: it sets the reader's error and hands back nil. The
+						// validation only counts if that error is looked at between the read and the use of what was read
+						// (bigint.FromBytes(nil) panics - finding 83)
+						if ok && strings.Contains(gate.validator, "(*BinReader).Read") && FnKey(target) == "pkg/encoding/bigint.FromBytes" {
+							vals := cf.CallSites(strings.Split(gate.validator, "|")...)
+							for _, tsite := range targets {
+								// the nearest validator call before the target, in source order
+								vpos := token.NoPos
+								for _, v := range vals {
+									if v.call.Pos() < tsite.call.Pos() && v.call.Pos() > vpos {
+										vpos = v.call.Pos()
+									}
+								}
+								if vpos == token.NoPos {
+									continue // validated by a length comparison, not by a read
+								}
+								checked := false
+								ast.Inspect(cfd.Decl.Body, func(x ast.Node) bool {
+									is, isIf := x.(*ast.IfStmt)
+									if !isIf || is.Pos() < vpos || is.Pos() > tsite.call.Pos() {
+										return true
+									}
+									if cf.DirectMentions(is.Cond)["pkg/io#Err"] {
+										checked = true
+									}
+									return true
+								})
+								if !checked {
+									if bad != "" {
+										bad += "; "
+									}
+									bad += fmt.Sprintf("%s hands what %s returned to %s without looking at the reader's error in between: when the read fails (more bytes announced than the limit) it returns nil, and %s panics on nil", FnKey(e.Caller.Fn), shortSym(gate.validator), shortSym(FnKey(target)), shortSym(FnKey(target)))
+								}
+							}
+						}
 					}
 					switch {
 					case bad != "":
